@@ -8,5 +8,6 @@ for d in benign/B*-*; do
     B4) C="C01 C10 C12 C13 C16 C20";; B5) C="C01 C11 C13 C14 C16";; B6) C="C13 C14 C15 C16 C20";;
     B7) C="C01 C08 C10 C11 C13 C14 C16 C20";; B8) C="C17 C18 C19";; B9) C="C19";; B10) C="C20";;
   esac
-  echo "== $b: $(tools/try_benign.sh $d $C 2>&1 | grep -c silent) silent, alarms: $(tools/try_benign.sh $d $C 2>&1 | grep ALARM | tr '\n' ' ')"
+  out=$(tools/try_benign.sh $d $C 2>&1)
+  echo "== $b: $(echo "$out" | grep -c silent) silent, alarms: $(echo "$out" | grep -E 'ALARM|APPLY|not clean' | tr '\n' ' ')"
 done
